@@ -114,6 +114,7 @@ package age
 //@   ensures#shape err == nil ==> stanzas[0].Type == "X25519" && len(stanzas[0].Args) == 1 && stanzas[0].Args[0] == b64raw(x25519(csprng(old($draws), 32), basepoint()))   [C01 C05]
 //@   ensures#body err == nil ==> bytes(stanzas[0].Body) == seal(x25519Key(x25519(csprng(old($draws), 32), bytes(r.theirPublicKey)), x25519(csprng(old($draws), 32), basepoint()), bytes(r.theirPublicKey)), zeros(12), old(bytes(fileKey)))   [C01 C05]
 //@   ensures#draws $draws == old($draws) + 1                                                                                     [C06]
+//@   ensures#okpoints err == nil ==> x25519ok(csprng(old($draws), 32), basepoint()) && x25519ok(csprng(old($draws), 32), bytes(r.theirPublicKey))   [C01]
 //@   ensures#frame r.theirPublicKey == old(r.theirPublicKey)                                                                     [C20]
 //@   fresh stanzas when err == nil
 //@   modifies $draws
@@ -286,6 +287,8 @@ package age
 //@   requires len(i.secretKey) == 32 && len(i.ourPublicKey) == 32 && (forall j in 0..len(stanzas) :: stanzas[j] != nil)
 //@   ensures#nil err != nil ==> fk == nil                                                                                           [C01 C04]
 //@   ensures#foreign (forall j in 0..len(stanzas) :: stanzas[j].Type != "X25519") ==> err == ErrIncorrectIdentity                   [C01 C04]
+//@   ensures#ok1 (len(stanzas) == 1 && err == nil) ==> stanzas[0].Type == "X25519" && len(fk) == 16 && bytes(fk) == open(x25519Key(x25519(bytes(i.secretKey), unb64raw(stanzas[0].Args[0])), unb64raw(stanzas[0].Args[0]), bytes(i.ourPublicKey)), zeros(12), bytes(stanzas[0].Body))   [C01]
+//@   ensures#opens1 (len(stanzas) == 1 && stanzas[0].Type == "X25519" && len(stanzas[0].Args) == 1 && b64rawok(stanzas[0].Args[0]) && len(unb64raw(stanzas[0].Args[0])) == 32 && x25519ok(bytes(i.secretKey), unb64raw(stanzas[0].Args[0])) && len(stanzas[0].Body) == 32 && openok(x25519Key(x25519(bytes(i.secretKey), unb64raw(stanzas[0].Args[0])), unb64raw(stanzas[0].Args[0]), bytes(i.ourPublicKey)), zeros(12), bytes(stanzas[0].Body))) ==> err == nil   [C01]
 //@   ensures#frame i.secretKey == old(i.secretKey) && i.ourPublicKey == old(i.ourPublicKey)                                         [C20]
 //@   modifies nothing
 
